@@ -1,4 +1,5 @@
 import Verif.Proofs.MemHist
+import Verif.Facts.MemAlloc
 import Verif.Facts.MemClear
 /-
   C06 — An access statistic counts exactly the accesses that reached that physical byte.
@@ -34,6 +35,15 @@ theorem C06_clear_total (k : MemKind) (s : MemState) (c : Cell) (hc : c.1 ∈ re
 theorem C06_one (cfg : MemCfg) (s : MemState) (op : MemOp) (hop : op ≠ .clear) (c : Cell) :
     (applyOp cfg s op).stat c = s.stat c + (if op.cell cfg s = some c then 1 else 0) :=
   applyOp_stat cfg s op hop c
+
+/-- every counter array is allocated as long as the data buffer of its region (regenerated fact): no access
+    to an existing byte can miss its counter or hit another region's -/
+theorem C06_counters_sized :
+    countersSized "LinearMemory" Generated.LinearMemory_TakeSnapshot Generated.LinearMemory_ClearStatistics = true ∧
+    countersSized "X16Memory" Generated.X16Memory_TakeSnapshot Generated.X16Memory_ClearStatistics = true ∧
+    countersSized "NeoGeoRam" Generated.NeoGeoRam_TakeSnapshot Generated.NeoGeoRam_ClearStatistics = true ∧
+    countersSized "F256RevBMemory" Generated.F256RevBMemory_TakeSnapshot Generated.F256RevBMemory_ClearStatistics = true :=
+  counters_sized
 
 -- non-vacuity: two accesses to one window address under two banks count on two different bytes
 example :
